@@ -336,6 +336,106 @@ def sweeps(tier, rng):
                 except Exception as e:
                     bad = "building %d x 50 glyph pairs raised %r" % (nfirst, e)
                 yield (("glyph-pair-split", nfirst, "repacker=%r" % (repacker,)), bad)
+    def run_forced_splits():
+        """every (lookup, subtable) of small generated fonts whose type has an entry in otTables.splitTable is split by calling
+        fixSubTableOverFlows directly (first call: DontShare; second call: the split and the insertion into the lookup) — no
+        64k of data needed, so odd and even class / glyph counts and subtables that are followed by others all occur; the font
+        must shape every sample text as before"""
+        from fontTools.fontBuilder import FontBuilder
+        from fontTools.pens.ttGlyphPen import TTGlyphPen
+        from fontTools.ttLib.tables import otTables as ot
+        from fontTools.ttLib.tables.otBase import OverflowErrorRecord
+        bases = list("abcdefgh"); marks = ["m%d" % i for i in range(8)]; extra = ["f_i", "x1", "x2", "x3"]
+        order = [".notdef"] + bases + marks + extra
+        gid = {n: i for i, n in enumerate(order)}
+        def txt(names): return "".join(chr(0xE000 + gid[n] - 1) for n in names)
+        def build(fea):
+            fb = FontBuilder(1000, isTTF=True); fb.setupGlyphOrder(order); fb.setupCharacterMap({0xE000 + i: n for i, n in enumerate(order[1:])})
+            pen = TTGlyphPen(None); pen.moveTo((0, 0)); pen.lineTo((100, 0)); pen.lineTo((50, 100)); pen.closePath(); g = pen.glyph()
+            fb.setupGlyf({n: g for n in order}); fb.setupHorizontalMetrics({n: (500 + 10 * i, 0) for i, n in enumerate(order)}); fb.setupHorizontalHeader(ascent=800, descent=-200)
+            fb.setupNameTable({"familyName": "FS", "styleName": "R"}); fb.setupOS2(); fb.setupPost()
+            fb.addOpenTypeFeatures(fea)
+            fb.font.cfg[OPT_REPACK] = False
+            return fb.font
+        nfonts = N(tier, 6, 40)
+        for k in range(nfonts):
+            ncls = 2 + (k % 4)                                   # 2..5 mark classes: odd and even
+            nb = rng.randint(2, 8)
+            lines = ["languagesystem DFLT dflt;"]
+            cls_of = {}
+            for i, m in enumerate(marks[:rng.randint(ncls, 8)]):
+                c = i % ncls; cls_of[m] = c
+                lines.append("markClass %s <anchor %d %d> @MC%d;" % (m, 10 * i + 3, 100 + 7 * i, c))
+            lines.append("feature mark {")
+            for j, b in enumerate(bases[:nb]):
+                lines.append("  pos base %s %s;" % (b, " ".join("<anchor %d %d> mark @MC%d" % (50 + j + 13 * c, 300 + 100 * c + j, c) for c in range(ncls))))
+            lines.append("} mark;")
+            # kerning: glyph-pair exceptions, then (after a subtable break) class pairs over the same first glyphs, then more glyph pairs
+            firsts = bases[:rng.randint(2, 8)]
+            lines.append("feature kern {")
+            for i, l in enumerate(firsts):
+                for r in bases[:3]: lines.append("  pos %s %s %d;" % (l, r, -10 - 7 * i - gid[r]))
+            lines.append("  subtable;")
+            lines.append("  pos [%s] [%s] -50;" % (" ".join(firsts), " ".join(bases[:5])))
+            lines.append("  pos [%s] [%s] -70;" % (" ".join(bases[3:6]), " ".join(bases[5:8])))
+            lines.append("} kern;")
+            # single positioning with distinct values (format 2), multiple / alternate / ligature substitutions
+            lines.append("feature dist {")
+            for i, b in enumerate(bases[:rng.randint(2, 8)]): lines.append("  pos %s <%d 0 %d 0>;" % (b, i + 1, 2 * i + 1))
+            lines.append("} dist;")
+            lines.append("feature ccmp {")
+            for i, b in enumerate(bases[:rng.randint(2, 7)]): lines.append("  sub %s by x1 %s x2;" % (b, bases[(i + 1) % 8]))
+            lines.append("} ccmp;")
+            lines.append("feature salt {")
+            for i, b in enumerate(bases[:rng.randint(2, 7)]): lines.append("  sub %s from [%s x3 x1];" % (b, bases[(i + 2) % 8]))
+            lines.append("} salt;")
+            lines.append("feature liga {")
+            for i, b in enumerate(bases[:rng.randint(2, 7)]):
+                lines.append("  sub %s %s by %s;" % (b, bases[(i + 1) % 8], extra[i % 4])); lines.append("  sub %s %s %s by x2;" % (b, bases[(i + 1) % 8], bases[(i + 3) % 8]))
+            lines.append("} liga;")
+            fea = "\n".join(lines)
+            texts = [[b, m] for b in bases for m in cls_of] + [[l, r] for l in bases for r in bases] + [[b] for b in bases] \
+                    + [[b, bases[(i + 1) % 8], bases[(i + 3) % 8]] for i, b in enumerate(bases)]
+            feats = {"mark": True, "kern": True, "dist": True, "ccmp": True, "salt": True, "liga": True}
+            featsets = [{"mark": True, "kern": True, "dist": True}, {"ccmp": True, "kern": False}, {"salt": True, "kern": False}, {"liga": True, "kern": False}]
+            try:
+                font0 = build(fea)
+                data0 = save_bytes(font0)
+                h0 = HBFont(data0, order)
+                want = [[h0.shape(txt(t), features=f) for t in texts] for f in featsets]
+                sites = []
+                for tag in ("GSUB", "GPOS"):
+                    for li, lk in enumerate(font0[tag].table.LookupList.Lookup):
+                        for si, st in enumerate(lk.SubTable):
+                            real = getattr(st, "ExtSubTable", st)
+                            if real.__class__.LookupType in ot.splitTable[tag]: sites.append((tag, li, si, type(real).__name__, len(lk.SubTable)))
+            except Exception as e:
+                yield (("forced-split", k, "build"), "building the feature file raised %r" % (e,)); continue
+            for (tag, li, si, tname, nsub) in sites:
+                bad = None
+                try:
+                    font = TTFont(io.BytesIO(data0)); font.cfg[OPT_REPACK] = False
+                    font[tag].table                                        # decompile
+                    # the record of a realistic overflow: into the Coverage (the subtable is cut in half), or at the offset of the
+                    # i-th Sequence / AlternateSet / LigatureSet (the cut is just before it)
+                    real0 = getattr(font[tag].table.LookupList.Lookup[li].SubTable[si], "ExtSubTable", font[tag].table.LookupList.Lookup[li].SubTable[si])
+                    item = {"MultipleSubst": "Sequence", "AlternateSubst": "AlternateSet", "LigatureSubst": "LigatureSet"}.get(tname)
+                    nitems = len(getattr(real0, {"MultipleSubst": "mapping", "AlternateSubst": "alternates", "LigatureSubst": "ligatures"}.get(tname, "x"), ()) or ())
+                    if item and nitems >= 2 and rng.chance(50): rec = OverflowErrorRecord((tag, li, si, item, rng.randint(2, nitems)))
+                    else: rec = OverflowErrorRecord((tag, li, si, "Coverage", None))
+                    ok1 = ot.fixSubTableOverFlows(font, rec)
+                    ok2 = ot.fixSubTableOverFlows(font, rec)
+                    data1 = save_bytes(font)
+                    h1 = HBFont(data1, order)
+                    for f, ws in zip(featsets, want):
+                        for t, w in zip(texts, ws):
+                            got = h1.shape(txt(t), features=f)
+                            if got != w:
+                                bad = "%s lookup %d, %s subtable %d of %d split (%r): %r under %r shaped %r before and %r after" % (tag, li, tname, si, nsub, ok2, t, sorted(f), w, got); break
+                        if bad: break
+                except Exception as e:
+                    bad = "%s lookup %d subtable %d (%s): forced split raised %r" % (tag, li, si, tname, e)
+                yield (("forced-split", k, tag, li, si, tname, "fea=" + fea if bad else ""), bad)
     def run_compaction_handbuilt():
         """compaction applied to PairPos format 2 subtables that are valid but not what the builder emits: ClassDef1 lists glyphs
         outside the Coverage, classes without covered glyphs are all-zero"""
@@ -384,7 +484,7 @@ def sweeps(tier, rng):
                     bad = "hand-built compaction case raised %r" % (e,)
                 yield (("compaction-handbuilt", it, level), bad)
     return [Sweep("overflow-kerning", run_overflow), Sweep("compaction", run_compaction), Sweep("repacker-equivalence", run_repacker_equivalence), Sweep("subtable-splits", run_splits),
-            Sweep("glyph-pair-splits", run_pair_glyph_splits), Sweep("compaction-handbuilt", run_compaction_handbuilt)]
+            Sweep("glyph-pair-splits", run_pair_glyph_splits), Sweep("forced-splits", run_forced_splits), Sweep("compaction-handbuilt", run_compaction_handbuilt)]
 
 def classify(sweep, case, failure):
     return None
